@@ -669,13 +669,27 @@ class Gen:
         r = self.rng
         arms = []
         for _ in range(r.choice([1, 1, 1, 2])):
+            lead = []
             if self.p(0.2):
                 pre = self.next_marker()
                 pe, _ = self.expr(BOOL, False, d - 1)
                 pred = [pre, pe]
+            elif self.p(0.15):
+                # the predicate itself changes the type of a variable / path, and the branch changes
+                # it again: whichever way the predicate goes, the state after the `if` must cover it
+                k1, k2 = r.sample(ALLK, 2)
+                e1, _ = self.expr(k1, False, 0)
+                e2, _ = self.expr(k2, False, 0)
+                tgt = self.target_for("any")
+                if tgt[0] == "tvar" and not tgt[2]:
+                    self.perturbed.add(tgt[1])
+                pe, _ = self.expr(BOOL, False, d - 1)
+                pred = [["assign", tgt, e1], pe]
+                if self.p(0.8):
+                    lead = [["assign", tgt, e2]]
             else:
                 pred = [self.expr(BOOL, False, d - 1)[0]]
-            body = self.stmts(r.randint(1, 2), d - 1, scoped=True)
+            body = lead + self.stmts(r.randint(1, 2), d - 1, scoped=True)
             arms.append([pred, body])
         els = self.stmts(r.randint(1, 2), d - 1, scoped=True) if self.p(0.5) else None
         return ["if", arms, els]
